@@ -204,25 +204,39 @@ pub broadcast axiom fn axiom_eff_load(start: u64, end: u64, loader: Arc<LogRecor
 pub uninterp spec fn snap_hdr(c: Seq<u8>) -> Option<SnapshotHeaderDto>;
 pub uninterp spec fn snap_recs(c: Seq<u8>) -> Seq<SnapshotRecordDto>;
 pub uninterp spec fn snap_readable(f: tokio::fs::File) -> bool;
+/// A-SNAPIMAGE: the bytes are a snapshot image as SnapshotWriterActor writes it (every length prefix fits 32 bits, < 4 GiB)
+pub uninterp spec fn snap_image_ok(c: Seq<u8>) -> bool;
 #[verifier::external_body]
 pub struct SnapshotReader { vx: u8 }
+/// The contracts below are PROVED on the real SnapshotReader in unit snapshot, where snap_hdr / snap_recs / snap_readable /
+/// snap_image_ok / wf / hdr / remaining / faulty are DEFINED over the bytes of the file; the clause text between the
+/// `<<abstract` markers is compared with that unit's on every run ([[same_block]] in unit.toml).
 impl SnapshotReader {
+    pub uninterp spec fn wf(&self) -> bool;
     pub uninterp spec fn hdr(&self) -> SnapshotHeaderDto;
     /// the records not handed out yet
     pub uninterp spec fn remaining(&self) -> Seq<SnapshotRecordDto>;
-    /// some read of the underlying file fails or some frame does not decode
+    /// some read of the underlying file can fail or some frame is not a record
     pub uninterp spec fn faulty(&self) -> bool;
     #[verifier::external_body]
     pub async fn init_by_file(file: Box<tokio::fs::File>) -> (r: anyhow::Result<Self>)
+        requires snap_image_ok(file.contents())
         ensures
-            r is Ok ==> snap_hdr(file.contents()) == Some(r.unwrap().hdr()) && r.unwrap().remaining() == snap_recs(file.contents())
-                && r.unwrap().faulty() == !snap_readable(*file),
-            r is Err ==> !snap_readable(*file),
+            r is Ok ==> r.unwrap().wf(),
+        // <<abstract:init_by_file (the contract unit raftdata assumes)
+        r is Ok ==> snap_hdr(file.contents()) == Some(r.unwrap().hdr()) && r.unwrap().remaining() == snap_recs(file.contents())
+            && (snap_readable(*file) ==> !r.unwrap().faulty()),
+        r is Err ==> !snap_readable(*file),
+        // >>abstract
     { unimplemented!() }
     #[verifier::external_body]
     pub async fn init(path: &str) -> (r: anyhow::Result<Self>)
+        requires snap_image_ok(disk_at_open(path@))
         ensures
-            r is Ok ==> snap_hdr(disk_at_open(path@)) == Some(r.unwrap().hdr()) && r.unwrap().remaining() == snap_recs(disk_at_open(path@)),
+            r is Ok ==> r.unwrap().wf(),
+        // <<abstract:init (the contract unit raftdata assumes)
+        r is Ok ==> snap_hdr(disk_at_open(path@)) == Some(r.unwrap().hdr()) && r.unwrap().remaining() == snap_recs(disk_at_open(path@)),
+        // >>abstract
     { unimplemented!() }
     #[verifier::external_body]
     pub fn get_header(&self) -> (r: &SnapshotHeaderDto)
@@ -230,13 +244,17 @@ impl SnapshotReader {
     { unimplemented!() }
     #[verifier::external_body]
     pub async fn read_record(&mut self) -> (r: anyhow::Result<Option<SnapshotRecordDto>>)
+        requires old(self).wf()
         ensures
-            final(self).faulty() == old(self).faulty(), final(self).hdr() == old(self).hdr(),
-            match r {
-                Ok(Some(x)) => old(self).remaining().len() > 0 && x == old(self).remaining()[0] && final(self).remaining() == old(self).remaining().skip(1),
-                Ok(None) => old(self).remaining().len() == 0 && final(self).remaining() == old(self).remaining(),
-                Err(_) => old(self).faulty() && final(self).remaining() == old(self).remaining(),
-            }
+            r is Ok ==> final(self).wf(),
+        // <<abstract:read_record (the contract unit raftdata assumes)
+        r is Ok ==> final(self).faulty() == old(self).faulty(), final(self).hdr() == old(self).hdr(),
+        match r {
+            Ok(Some(x)) => old(self).remaining().len() > 0 && x == old(self).remaining()[0] && final(self).remaining() == old(self).remaining().skip(1),
+            Ok(None) => old(self).remaining().len() == 0 && final(self).remaining() == old(self).remaining(),
+            Err(_) => old(self).faulty(),
+        }
+        // >>abstract
     { unimplemented!() }
 }
 } // verus!
